@@ -345,6 +345,22 @@ func TestC08(t *testing.T) {
 		}
 		st.CaseJSON(c, nontrivial(c), cls...)
 		st.Class("calls", int64(len(c.Callers)))
-		return run(c)
+		f := run(c)
+		if f != nil && f.Sig == "lost-delivery" {
+			// the only rule that depends on the client being scheduled in time (150 ms between
+			// the server's write and the caller's deadline): it must reproduce twice more
+			for i := 0; i < 2; i++ {
+				time.Sleep(200 * time.Millisecond)
+				g := run(c)
+				if g == nil {
+					st.Inconclusive()
+					return nil
+				}
+				if g.Sig != "lost-delivery" {
+					return g
+				}
+			}
+		}
+		return f
 	})
 }
